@@ -275,6 +275,12 @@ class TreeFn:
             if left.attr == "history" and right.value == "deep":
                 return wrap(f"(is_deep m {recv})")
             self.fail(e, "string comparison")
+        # len(l) > 1
+        if isinstance(op, ast.Gt) and isinstance(left, ast.Call) and isinstance(left.func, ast.Name) and left.func.id == "len" \
+                and len(left.args) == 1 and isinstance(right, ast.Constant) and right.value == 1:
+            a, ta = self.expr(left.args[0], env)
+            if ta in ("trns", "nodes"):
+                return f"(Nat.ltb 1 (List.length {a}))"
         # event.src == inv.id
         if isinstance(op, (ast.Eq, ast.NotEq)) and isinstance(left, ast.Attribute) and left.attr == "src" \
                 and isinstance(left.value, ast.Name) and env.get(left.value.id) == "event":
@@ -1048,6 +1054,7 @@ def translate_all(src_root=None):
     out.append(translate_on_done(src_root, known, known_params, known_recursive))
     out.append(translate_descent(src_root, known, known_params, known_recursive))
     out.append(translate_skeletons(src_root))
+    out.append(translate_process_event(src_root, known, known_params, known_recursive))
     return "\n".join(out)
 
 
@@ -1490,6 +1497,42 @@ def translate_skeletons(src_root):
         sk, dg = entry_skeleton(src_root, fname, cls)
         out.append(f"(* {fname} :: _enter_states  sha256[:16]={dg}: the order of the effects of entering one state (every path through the loop body agrees with it) *)\n"
                    f"Definition entry_skeleton_{suffix} : list neff := {sk}.\n")
+    return "\n".join(out)
+
+
+# ---------------------------------------------------------------------------------------------------------------------
+# _process_event (both engines' copies): select, then execute each selected transition in turn, SKIPPING one whose source was
+# exited by an earlier winner of the same step.  The shape is checked and the skip test is translated.
+def translate_process_event(src_root, known, known_params, known_recursive):
+    out = []
+    for fname, cls, call, coqname in (("base_interpreter.py", "BaseInterpreter", "await self._execute_transition(transition, event)", "skip_stale_async"),
+                                      ("sync_interpreter.py", "SyncInterpreter", "self._execute_transition_sync(transition, event)", "skip_stale_sync")):
+        text, fdef = _find_method(src_root, fname, cls, "_process_event")
+        src = f"{fname}:_process_event"
+        body = [st for st in fdef.body if not _is_logger(st) and not (isinstance(st, ast.Expr) and isinstance(st.value, ast.Constant))]
+        ok = len(body) == 3 and ast.unparse(body[0]) == "transitions = self._select_transitions(event)" \
+            and isinstance(body[1], ast.If) and ast.unparse(body[1].test) == "not transitions" and not body[1].orelse \
+            and [ast.unparse(x) for x in body[1].body if not _is_logger(x)] == ["return"] \
+            and isinstance(body[2], ast.For) and ast.unparse(body[2].target) == "transition" and ast.unparse(body[2].iter) == "transitions"
+        if ok:
+            lb = [x for x in body[2].body if not _is_logger(x)]
+            ok = len(lb) == 2 and isinstance(lb[0], ast.If) and not lb[0].orelse \
+                and [ast.unparse(x) for x in lb[0].body if not _is_logger(x)] == ["continue"] and ast.unparse(lb[1]) == call
+        if not ok:
+            raise Untranslatable(f"{src}: expected `transitions = select; if not transitions: return; for transition in transitions: "
+                                 f"if <stale>: continue; execute(transition, event)`")
+        synth = ast.FunctionDef(name="_process_event_skip", args=ast.arguments(posonlyargs=[], args=[ast.arg(arg="self"), ast.arg(arg="transitions"), ast.arg(arg="transition")],
+                                                                               kwonlyargs=[], kw_defaults=[], defaults=[]),
+                                body=[ast.Return(value=lb[0].test)], decorator_list=[], lineno=fdef.lineno)
+        ast.fix_missing_locations(synth)
+        spec = dict(func="_process_event_skip", coqname=coqname, params=[("transitions", "trns"), ("transition", "trn")], ret="bool", needs=["v_C"])
+        fn = TreeFn(synth, spec, src, known)
+        fn.known_params = known_params
+        fn.known_recursive = known_recursive
+        seg = ast.get_source_segment(text, fdef) or ""
+        out.append(f"(* {fname} :: _process_event  sha256[:16]={hashlib.sha256(seg.encode()).hexdigest()[:16]}: shape checked (select; nothing selected -> return; "
+                   f"for each selected: skip if stale, else execute); the skip test *)")
+        out.append(fn.translate())
     return "\n".join(out)
 
 
